@@ -445,6 +445,12 @@ def oracle_c04(steps: list[Step], counters: dict | None = None) -> list[Violatio
             # other layout; braces and separators then change by necessity: token and comment clauses only
             bump("skip:layout_switch")
             canonical = False
+        if canonical and f["depth"] and _paren_opens_inline(st.dec_before) != _paren_opens_inline(st.dec_out):
+            # a let created / pruned directly inside a parenthesis moves the first token off (or onto) the line of
+            # `(` (non-RFC `f ( let …`, see section 7 item 18): the content is re-indented as a whole;
+            # token and comment clauses only
+            bump("skip:paren_reopened")
+            canonical = False
         problems = locality.check_step(st, canonical=canonical)
         for suffix, msg in problems:
             if suffix == "skip":
